@@ -21,7 +21,7 @@ PROPS = {
         "assumptions": ["bytes are modelled as N < 256", "Covenant::to_bytes panics (unwrap) exactly where encode_all = None"],
     },
     "C10": {
-        "coq_targets": ["VM/ExecProofs.vo", "VM/LoopCount.vo"],
+        "coq_targets": ["VM/ExecProofs.vo", "VM/LoopCount.vo", "VM/ValueRange.vo"],
         "streams": [("vm", VM_RESULT | VM_STEPS | VM_FUEL)],
         "corr_is_violation": True,
         "rule": "vm: all programs of length <= 3 (quick) / <= 4 (thorough) over a 17-opcode alphabet, hand-written boundary families, type-aware random programs with loops/jumps/heaps, random decodable byte strings; distinct (program, heap) pairs",
@@ -141,7 +141,7 @@ MANIFEST_TEXT = {
         "technique": "Coq proof (list/byte induction) + translated tables + differential check vs real codec",
     },
     "C10": {
-        "text": "The Gallina interpreter (VM/Exec.v) is the reference semantics written instruction by instruction; Coq theorems establish its stated laws (wrapping arithmetic, failing division, bit-bounded Exp, slice/ref range behaviour, forward-only jumps, loop bodies run exactly n times, result = top of stack) for all programs; the real Executor is compared with it on exhaustive short programs and generated ones (results must be equal).",
+        "text": "The Gallina interpreter (VM/Exec.v) is the reference semantics written instruction by instruction; Coq theorems establish its stated laws (wrapping arithmetic, failing division, bit-bounded Exp, slice/ref range behaviour, forward-only jumps, loop bodies run exactly n times, result = top of stack) for all programs, and that it never leaves the domain the implementation can represent (every integer stays below 2^256 and every byte below 256 through every instruction and step; the decoder yields only literals in range); the real Executor is compared with it on exhaustive short programs and generated ones (results and the number of executed instructions must be equal).",
         "note": "Hash/Ed25519 are oracles answered from the implementation's own calls; catvec rope internals and usize overflow (finding F14) are outside the model.",
         "technique": "Coq reference interpreter + per-opcode theorems + differential execution vs real Executor",
     },
